@@ -66,6 +66,11 @@ def records_oracle(case, obs):
             want_inputs = {n.split('::')[-1]: keys[v['task']] for n, v in e['inputs'].items() if 'task' in v}
             if {n.split('::')[-1]: k2 for n, k2 in ri['input_tasks'].items()} != want_inputs:
                 return f'step {k}: run info of {op["name"]} lists input keys {ri["input_tasks"]}, the chain has {want_inputs}'
+            # one entry per input: inputs of the same local name under different namespaces are all there
+            all_keys = sorted(keys[v['task']] for v in e['inputs'].values() if 'task' in v)
+            if sorted(ri['input_tasks'].values()) != all_keys:
+                return (f'step {k}: run info of {op["name"]} lists the input keys {ri["input_tasks"]}; its inputs '
+                        f'{sorted(n for n, v in e["inputs"].items() if "task" in v)} have the keys {all_keys}')
             for d, v, fd in e['bound']:
                 if d['ignore'] or d['dropdef']:
                     continue
@@ -124,7 +129,19 @@ class Records(Histories):
                  base={'name': 'round2', 'data': {'tasks': ['@M.*'], 'uses': 'round1.json as base'}}, context=None)
         n['ops'] = [{'op': 'build', 'base': n['base']}, {'op': 'value', 'chain': 0, 'pick': 4}] + \
                    [{'op': 'records', 'chain': 0, 'pick': k} for k in range(5)]
-        return [c, m, r, q, n]
+        # two inputs of one local name under two namespaces: the record names both
+        tv = dict(classes=[dict(K(0, 'Dataset', params=[P('size')]), name='dataset'),
+                           dict(K(1, 'Model', meta_inputs=[{'name': 'train::dataset'}, {'name': 'valid::dataset'}]), name='model')],
+                  files={'d.json': {'tasks': ['@M.Dataset'], 'size': 0}},
+                  base={'name': 'main', 'data': {'tasks': ['@M.Model'], 'uses': ['d.json as train', 'd.json as valid']}},
+                  context={'dict': {'for_namespaces': {'train': {'size': 1}, 'valid': {'size': 2}}}})
+        # (task order of the chain: train::dataset, valid::dataset, model)
+        tv['ops'] = [{'op': 'build', 'base': tv['base']}, {'op': 'value', 'chain': 0, 'pick': 2}] + \
+                    [{'op': 'records', 'chain': 0, 'pick': k} for k in range(3)] + \
+                    [{'op': 'force_chain', 'chain': 0, 'picks': [2], 'recompute': True, 'delete': False}, {'op': 'records', 'chain': 0, 'pick': 2}]
+        # the same with equal settings: the two inputs are one computation, and still two inputs
+        tw = dict(tv, context=None)
+        return [c, m, r, q, n, tv, tw]
 
     def oracle(self, case, obs):
         return records_oracle(case, obs) or history_oracle(case, obs, self.checks)
@@ -375,9 +392,69 @@ class RunBodies(Suite):
         return repr(case)
 
 
+class NamedConfigs(Suite):
+    """persistence by config name (parameter_mode=False) with results kept in files that carry an extension: configs whose
+    names contain dots and agree up to a dot (exp.v1 / exp.v2, a.b.c / a.b.d) or extend one another (run / run.2), each
+    run in turn and one of them forced afterwards: the record and the log of each describe its own latest run.
+    Runtime check only (the model's locations are those of parameter mode)."""
+    name = 'records_by_config_name'
+    model = ''
+
+    def gen(self, rng, tier):
+        return [dict(names=n, force=f) for n in (['exp.v1', 'exp.v2'], ['a.b.c', 'a.b.d'], ['run', 'run.2'], ['plain', 'other'])
+                for f in (None, 0, 1)]
+
+    def run_impl(self, case):
+        import sys, types
+        from taskchain import Config
+        from .. import pipeline as pl
+        with pl.workspace(dict(classes=[], files={})) as (d, _):
+            name = 'tcv_bodies'
+            m = types.ModuleType(name)
+            sys.modules[name] = m
+            try:
+                exec(compile(BODY_SRC, name, 'exec'), m.__dict__)
+                task = lambda i: Config(Path('data'), name=case['names'][i], data={'tasks': [f'{name}.Plain'], 'k': i}).chain(parameter_mode=False)['plain']
+                last = {}
+                for i in range(len(case['names'])):
+                    last[i] = task(i).value['n']
+                if case['force'] is not None:
+                    t = task(case['force'])
+                    t.force()
+                    last[case['force']] = t.value['n']
+                out = []
+                for i in range(len(case['names'])):
+                    t = task(i)
+                    ri = t.run_info or {}
+                    out.append(dict(k=(ri.get('parameters') or {}).get('k'), records=ri.get('log'), n=last[i],
+                                    log=[l.split(' - ')[-1].strip() for l in (t.log or []) if 'tok' in l]))
+                return dict(tasks=out)
+            finally:
+                sys.modules.pop(name, None)
+
+    def oracle(self, case, obs):
+        if 'unexpected_exception' in obs:
+            return f'unexpected exception {obs["unexpected_exception"]}: {obs["text"]}'
+        for i, o in enumerate(obs['tasks']):
+            who = f'{case}: config {case["names"][i]}'
+            if str(o['k']) != str(i):
+                return f'{who}: its record names the parameter k={o["k"]}, its own value is {i}'
+            if not o['records'] or o['records'][0] != {'r': o['n'], 'i': 0}:
+                return f'{who}: its latest run is number {o["n"]}, its record holds {str(o["records"])[:120]}'
+            if o['log'] != [f'tok {o["n"]} first', f'tok {o["n"]} second']:
+                return f'{who}: its latest run is number {o["n"]}, its log holds {o["log"]}'
+        return None
+
+    def nontrivial(self, case, obs):
+        return True
+
+    def key(self, case):
+        return repr(case)
+
+
 class C18(Prop):
     pid = 'C18'
-    suites = [Records(), RunBodies()]
+    suites = [Records(), RunBodies(), NamedConfigs()]
     assumptions = ['timestamps, user name, library version, class and module names are abstracted away',
                    'the framing lines of the log (run started / run ended) are abstracted: the messages logged by run '
                    'are the tokens']
